@@ -202,13 +202,17 @@ class SolverWrapper:
             elif self.external_solver == "highs":
                 # HiGHS batched updates
                 import numpy as np  # local alias to ensure available
+                # HiGHS rejects (without changing anything) index sets with repeated entries, and getCols
+                # needs increasing indices: keep the last request per variable and sort by column index
                 if self._pending_fix_vars:
-                    idxs = np.array([v.index for v in self._pending_fix_vars], dtype=np.int32)
-                    vals = np.array(self._pending_fix_vals, dtype=np.float64)
+                    fix_by_idx = {v.index: val for v, val in zip(self._pending_fix_vars, self._pending_fix_vals)}
+                    idxs = np.array(sorted(fix_by_idx), dtype=np.int32)
+                    vals = np.array([fix_by_idx[i] for i in idxs], dtype=np.float64)
                     self.solver.changeColsBounds(len(idxs), idxs, vals, vals)
                 if self._pending_lb_vars:
-                    idxs = np.array([v.index for v in self._pending_lb_vars], dtype=np.int32)
-                    lbs  = np.array(self._pending_lb_vals, dtype=np.float64)
+                    lb_by_idx = {v.index: val for v, val in zip(self._pending_lb_vars, self._pending_lb_vals)}
+                    idxs = np.array(sorted(lb_by_idx), dtype=np.int32)
+                    lbs  = np.array([lb_by_idx[i] for i in idxs], dtype=np.float64)
                     # Prefer dedicated lower bound update if available, else fall back to bounds change with UB unchanged
                     if hasattr(self.solver, "changeColsLower"):
                         self.solver.changeColsLower(len(idxs), idxs, lbs)
